@@ -80,11 +80,17 @@ def designs(tier, rnd):
                         D["leaves"] = leaves
                         out.append(("hier", D))
     # designs flatten documents as unsupported (slices / concats in connections): must be rejected or flattened correctly
-    for t in [Slc(Sig("bus"), I(0)), Cat(Sig("g"), Sig("io"))]:
+    R_ = lambda s, e, t=None: {"k": "range", "i": 0, "hs": s is not None, "s": s or 0, "he": e is not None, "e": e or 0, "ht": t is not None, "t": t or 0}
+    unsup = [(Slc(Sig("bus"), I(0)), None), (None, Cat(Sig("g"), Sig("io"))),
+             # all the bits of one signal, but reversed / permuted / with a repeated bit
+             (None, Slc(Sig("hh"), R_(None, None, -1))), (None, Cat(Slc(Sig("hh"), I(1)), Slc(Sig("hh"), I(0)))),
+             (None, Cat(Slc(Sig("hh"), I(0)), Slc(Sig("hh"), I(1)))), (None, Cat(Slc(Sig("hh"), I(0)), Slc(Sig("hh"), I(0)))),
+             (None, Cat(Slc(Sig("bus"), I(1)), Slc(Sig("hh"), I(0))))]
+    for ta, tb in unsup:
         mods = {"Leafm": leafmod(leaf_kinds[0]), "M0": mids["thru"]()}
         top_sigs = [U.sig("io", 1, True), U.sig("bus", 2, True), U.sig("g", 1), U.sig("hh", 2)]
-        tt = t if t["k"] == "slice" else Sig("io")
-        bb = Sig("hh") if t["k"] == "slice" else t
+        tt = ta if ta is not None else Sig("io")
+        bb = tb if tb is not None else Sig("hh")
         mods["Top"] = U.mod(top_sigs, [U.inst("m0", "M0", [("a", tt), ("b", bb)])], probes=False)
         D = U.design(mods)
         D["leaves"] = leaves
